@@ -4,6 +4,7 @@ import UscxmlVerif.Proofs.Select
 import UscxmlVerif.Proofs.CfgInv
 import UscxmlVerif.Proofs.Nest
 import UscxmlVerif.Proofs.Interval
+import UscxmlVerif.Proofs.Subtree
 /-!
 # C03 — the two micro-step engines are interchangeable (what is proved of both alike)
 
@@ -38,6 +39,17 @@ theorem fast_selection_conflict_free_w3c (c : Chart) (hc : Proofs.Struct.Coheren
   intro i hi' j hj hne s hs
   have hno := Proofs.Select.fast_selection_conflict_free c config ev x i hi' j hj hne
   exact Proofs.Interval.disjoint_of_not_overlaps c hc hi S hcfg i j (hplain i hi') (hplain j hj) hno s hs.1 hs.2
+
+/-- the same with no hypothesis left about the chart: every well-formed document -/
+theorem fast_selection_conflict_free_w3c_of_document (d : Doc) (late : Bool) (hwf : Proofs.Flatten.WFDoc d = true) (hroot : d.kind = .scxml)
+    (config : List Nat) (ev : Option String) (x : XS) (S : Spec.W3C.SState) (hcfg : Proofs.Struct.ConfigOk (flatten d late) S.config)
+    (hplain : ∀ i ∈ (Fast.selectLoop (flatten d late) config ev (List.range (flatten d late).trans.size) { x := x } []).transSet,
+      Properties.C05.plainTrans (flatten d late) (Model.Tables.tr (flatten d late) i) = true) :
+    ∀ i ∈ (Fast.selectLoop (flatten d late) config ev (List.range (flatten d late).trans.size) { x := x } []).transSet,
+      ∀ j ∈ (Fast.selectLoop (flatten d late) config ev (List.range (flatten d late).trans.size) { x := x } []).transSet,
+      i ≠ j → ∀ s, ¬ (s ∈ Spec.W3C.exitSetOf (flatten d late) S i ∧ s ∈ Spec.W3C.exitSetOf (flatten d late) S j) :=
+  fast_selection_conflict_free_w3c (flatten d late) (Proofs.Flatten.coherent_flatten d late hwf hroot)
+    (Proofs.Subtree.intervalOK_flatten d late hwf hroot) config ev x S hcfg hplain
 
 /-- both engines keep the configuration ascending and free of pseudo-states, step by step -/
 theorem both_engines_keep_configuration_a_set (c : Chart) (e : EState) (h : Proofs.CfgInv.EOk c e) :
